@@ -316,6 +316,15 @@ def site_bodies(cv=None, cb=None):
         "callee-stmt-only": [("expr", call("cf", I(3))), ("return", I(0))],
         "arg-stmt-only": [("expr", call("cf", cv)), ("return", I(0))],
         "receiver-stmt-only": [("expr", ("method", V("lc"), "push", [I(9)])), ("return", I(0))],
+        # captured containers whose ONLY mention is as the root of a write path (element / field store, op-assignment through the path); the
+        # following read goes through another closure-free route: the value returned is a constant, the write must simply not fail - and, in the
+        # variants `..-then-read`, must be visible
+        "setindex-target-only": [("setindex", V("lc"), I(0), I(9)), ("return", I(0))],
+        "opassign-index-target-only": [("opassign", ("index", V("lc"), I(1)), "+=", I(1)), ("return", I(0))],
+        "setfield-target-only": [("setfield", V("co"), "v", I(9)), ("return", I(0))],
+        "opassign-field-target-only": [("opassign", ("field", V("co"), "v"), "+=", I(1)), ("return", I(0))],
+        "setindex-target-then-read": [("setindex", V("lc"), I(0), cv), ("return", ("index", V("lc"), I(0)))],
+        "setfield-target-then-read": [("setfield", V("co"), "v", ("bin", "+", cv, I(3))), ("return", ("field", V("co"), "v"))],
         "is-operand": [("if", ("is", cv, cv), [("return", I(1))], None), ("return", I(0))],
         "map-key-literal": [asg("m", ("maplit", "int", "int", [(cv, I(5))])), ("return", ("method", V("m"), "len", []))],
         "typed-assign-rhs": [asg("t", cv, "int"), ("return", V("t"))],
@@ -365,7 +374,7 @@ REC_SITES = {
 }
 
 
-def site_program(site, nesting, owner_kind):
+def _site_program(site, nesting, owner_kind):
     """closure created at `nesting` levels below the owner of cv; the owner assigns cv after creating the closure."""
     prefix, _, base = site.rpartition("+")
     esc = base in ESC_SITES
@@ -394,7 +403,9 @@ def site_program(site, nesting, owner_kind):
                ("print", ("method", V("cl"), "is_closure", []))]
     extra = [asg("lc", ("list", [V("p") if owner_kind != "module" else I(1), I(7)]), "[int...]"), asg("cs", ("str", "ab")),
              asg("cb", ("bool", True)), asg("cf", fn([("q", "int")], "int", [("return", ("bin", "+", V("q"), I(1)))]))]
-    if not any(n in repr(body) for n in ("'lc'", "'cs'", "'cb'", "'cf'")):
+    if "'co'" in repr(body):
+        extra.append(asg("co", ("new", "Cbox", [I(4)])))
+    if not any(n in repr(body) for n in ("'lc'", "'cs'", "'cb'", "'cf'", "'co'")):
         extra = []
     if owner_kind == "escaped":
         # the closure outlives the execution of its owner: it is returned and called after the owner has returned
@@ -417,6 +428,16 @@ def site_program(site, nesting, owner_kind):
     return [cls, asg("oo", ("new", "Own", [])), ("print", ("method", V("oo"), "run", [I(1)])), ("print", ("str", "end"))]
 
 
+_CBOX = ("class", "Cbox", [("v", "int")], ([("v", "int")], [("setfield", V("self"), "v", V("v"))]), [])
+
+
+def site_program(*a, **kw):
+    prog = _site_program(*a, **kw)
+    if "'co'" in repr(prog):
+        prog = [_CBOX] + prog
+    return prog
+
+
 class C07(EHistCheck):
     id = "C07"
     model = ClosureModel()
@@ -427,7 +448,7 @@ class C07(EHistCheck):
             "closures; counter factory with two instances and re-creation; three nesting levels with a closure created by a closure; closures "
             "created in a method, stored in a list and passed as arguments; the shadowing family), de-duplicated on the values of the "
             "template's observer expressions, every transition replayed on the real CLI; (b) capture-site matrix: the captured variable is "
-            "used only inside one of 51 AST node kinds (incl. captured lists, strings, booleans and functions as receiver / operand / callee), with the closure created 1-3 levels below the owner (module, function, method, or "
+            "used only inside one of 57 AST node kinds (incl. captured lists, strings, booleans, functions and objects as receiver / operand / callee / root of an element or field write path), with the closure created 1-3 levels below the owner (module, function, method, or "
             "escaped: returned and called after the owner has returned), the owner assigning the variable after the closure was created; the "
             "same matrix with the site preceded, inside the closure, by a shadowing local / a plain self-assignment / a modify / a block-local "
             "shadow of the captured name (so that inner closures created afterwards must bind the closure's own local); a third family in which "
